@@ -118,7 +118,9 @@ func buildDg(v6 bool, d DgSpec, serial int) []byte {
 		}
 		p, _ := dhcpv4.New(dhcpv4.WithTransactionID(xid4(d.ID)), dhcpv4.WithHwAddr(mac),
 			dhcpv4.WithMessageType(dhcpv4.MessageTypeOffer), dhcpv4.WithGeneric(dhcpv4.GenericOptionCode(serialOpt4), tag),
-			dhcpv4.WithYourIP(net.IPv4(10, 0, 0, 100+byte(serial))))
+			dhcpv4.WithYourIP(net.IPv4(10, 0, 0, 100+byte(serial))),
+			dhcpv4.WithGeneric(dhcpv4.OptionVendorSpecificInformation, bytes.Repeat([]byte{0x40 + byte(serial)}, 40)),
+			dhcpv4.WithGeneric(dhcpv4.OptionDomainName, []byte(fmt.Sprintf("dg%d.example.org", serial))))
 		p.OpCode = dhcpv4.OpcodeBootReply
 		if d.Kind == DgRequestOp {
 			p.OpCode = dhcpv4.OpcodeBootRequest
@@ -127,6 +129,13 @@ func buildDg(v6 bool, d DgSpec, serial int) []byte {
 	}
 	m := &dhcpv6.Message{MessageType: dhcpv6.MessageTypeReply, TransactionID: xid6(d.ID)}
 	m.AddOption(&dhcpv6.OptionGeneric{OptionCode: dhcpv6.OptionCode(serialOpt6), OptionData: tag})
+	// payload-carrying options of several kinds, distinct per datagram, so that a message that shares
+	// memory with the receive path (or with another datagram) shows
+	pay := bytes.Repeat([]byte{0x40 + byte(serial)}, 24)
+	m.AddOption(&dhcpv6.OptVendorOpts{EnterpriseNumber: 4242, VendorOpts: dhcpv6.Options{&dhcpv6.OptionGeneric{OptionCode: 1, OptionData: pay}}})
+	m.AddOption(dhcpv6.OptServerID(&dhcpv6.DUIDEN{EnterpriseNumber: 9, EnterpriseIdentifier: pay[:10]}))
+	m.AddOption(&dhcpv6.OptRemoteID{EnterpriseNumber: 7, RemoteID: pay[:12]})
+	m.AddOption(dhcpv6.OptBootFileURL(fmt.Sprintf("tftp://dg%d/boot", serial)))
 	switch d.Kind {
 	case DgWrongHW:
 		// a relay message is not a client message: must be dropped
@@ -180,13 +189,16 @@ type clientRun struct {
 	reqs  [][]byte // encoding of each call's request
 	dests []string
 	thOf  []int // thread id of each call
+	respAtReturn [][]byte        // encoding of the returned response when the call returned
+	respNow      []func() []byte // re-encodes the returned response object later
 }
 
 // body returns the function executed as thread 0 of every execution of scenario s.
 func (s *ClientScenario) body(out **clientRun) func() {
 	return func() {
 		h := &History{}
-		run := &clientRun{h: h, reqs: make([][]byte, len(s.Calls)), dests: make([]string, len(s.Calls)), thOf: make([]int, len(s.Calls))}
+		run := &clientRun{h: h, reqs: make([][]byte, len(s.Calls)), dests: make([]string, len(s.Calls)), thOf: make([]int, len(s.Calls)),
+			respAtReturn: make([][]byte, len(s.Calls)), respNow: make([]func() []byte, len(s.Calls))}
 		*out = run
 		conn := NewConn(h)
 		T := time.Duration(s.T * Tick)
@@ -223,6 +235,7 @@ func (s *ClientScenario) body(out **clientRun) func() {
 				if r == nil {
 					return -1, err
 				}
+				run.respAtReturn[idx], run.respNow[idx] = r.ToBytes(), r.ToBytes
 				v := r.Options.Get(dhcpv4.GenericOptionCode(serialOpt4))
 				if len(v) != 2 {
 					return -2, err
@@ -264,6 +277,7 @@ func (s *ClientScenario) body(out **clientRun) func() {
 				if r == nil {
 					return -1, err
 				}
+				run.respAtReturn[idx], run.respNow[idx] = r.ToBytes(), r.ToBytes
 				o := r.GetOneOption(dhcpv6.OptionCode(serialOpt6))
 				if o == nil || len(o.ToBytes()) != 2 {
 					return -2, err
@@ -499,6 +513,13 @@ func (s *ClientScenario) checkClient(run *clientRun, ex *vs.Exec) (violation, ou
 					return fail("R2-exclusive", fmt.Sprintf("datagram %d returned by calls %d and %d", j, prev, ci))
 				}
 				returnedBy[j] = ci
+				want := expectDecoded(s.V6, buildDg(s.V6, d, j))
+				if run.respAtReturn[ci] != nil && !bytes.Equal(run.respAtReturn[ci], want) {
+					return fail("R1-content", fmt.Sprintf("call %d returned a message that is not the decoding of datagram %d", ci, j))
+				}
+				if run.respNow[ci] != nil && !bytes.Equal(run.respNow[ci](), want) {
+					return fail("R1-content-changed-later", fmt.Sprintf("the message returned to call %d (datagram %d) changed after it was returned", ci, j))
+				}
 				if firstMustEv != nil && firstMustEv.Seq < de.Seq {
 					return fail("R3-first", fmt.Sprintf("call %d returned datagram %d although acceptable datagram %d arrived earlier while it was waiting", ci, j, firstMust))
 				}
@@ -625,4 +646,20 @@ func max64(a, b int64) int64 {
 		return a
 	}
 	return b
+}
+
+// expectDecoded is the re-encoding of the decoded datagram, computed with the plain codec.
+func expectDecoded(v6 bool, data []byte) []byte {
+	if !v6 {
+		p, err := dhcpv4.FromBytes(append([]byte(nil), data...))
+		if err != nil {
+			return nil
+		}
+		return p.ToBytes()
+	}
+	m, err := dhcpv6.MessageFromBytes(append([]byte(nil), data...))
+	if err != nil {
+		return nil
+	}
+	return m.ToBytes()
 }
